@@ -368,18 +368,21 @@ func (c *Compiler) writeRootNode(node *node) (err error) {
 if src == nil { return }
 var x *` + pname + `
 _ = x
-if p, ok := src.(**` + pname + `); ok { x = *p } else if p, ok := src.(*` + pname + `); ok { x = p } else if v, ok := src.(` + pname + `); ok { x = &v } else { return }`
+if p, ok := src.(**` + pname + `); ok { if p != nil { x = *p } } else if p, ok := src.(*` + pname + `); ok { x = p } else if v, ok := src.(` + pname + `); ok { x = &v } else { return }
+if x == nil { return }`
 	// Custom header for Set() method.
 	funcHeaderSet := `if len(path) == 0 { return nil }
 if dst == nil { return nil }
 var x *` + pname + `
 _ = x
-if p, ok := dst.(**` + pname + `); ok { x = *p } else if p, ok := dst.(*` + pname + `); ok { x = p } else if v, ok := dst.(` + pname + `); ok { x = &v } else { return nil }`
+if p, ok := dst.(**` + pname + `); ok { if p != nil { x = *p } } else if p, ok := dst.(*` + pname + `); ok { x = p } else if v, ok := dst.(` + pname + `); ok { x = &v } else { return nil }
+if x == nil { return nil }`
 	// Custom header for GetTo() method.
 	funcHeaderGetTo := `if src == nil { return }
 var x *` + pname + `
 _ = x
-if p, ok := src.(**` + pname + `); ok { x = *p } else if p, ok := src.(*` + pname + `); ok { x = p } else if v, ok := src.(` + pname + `); ok { x = &v } else { return }
+if p, ok := src.(**` + pname + `); ok { if p != nil { x = *p } } else if p, ok := src.(*` + pname + `); ok { x = p } else if v, ok := src.(` + pname + `); ok { x = &v } else { return }
+if x == nil { return }
 if len(path) == 0 { *buf = &(*x)
 return}`
 	// Header for Loop() method.
@@ -390,7 +393,8 @@ return}`
 	funcHeaderLoop += `if src == nil { return }
 var x *` + pname + `
 _ = x
-if p, ok := src.(**` + pname + `); ok { x = *p } else if p, ok := src.(*` + pname + `); ok { x = p } else if v, ok := src.(` + pname + `); ok { x = &v } else { return }`
+if p, ok := src.(**` + pname + `); ok { if p != nil { x = *p } } else if p, ok := src.(*` + pname + `); ok { x = p } else if v, ok := src.(` + pname + `); ok { x = &v } else { return }
+if x == nil { return }`
 	// Header for DeepEqual() method.
 	funcHeaderEqual := `var (
 lx, rx *` + pname + `
@@ -407,7 +411,8 @@ if (lx == nil && rx != nil) || (lx != nil && rx == nil) { return false }
 	funcHeaderLC := `if src == nil { return nil }
 var x *` + pname + `
 _ = x
-if p, ok := src.(**` + pname + `); ok { x = *p } else if p, ok := src.(*` + pname + `); ok { x = p } else if v, ok := src.(` + pname + `); ok { x = &v } else { return inspector.ErrUnsupportedType }`
+if p, ok := src.(**` + pname + `); ok { if p != nil { x = *p } } else if p, ok := src.(*` + pname + `); ok { x = p } else if v, ok := src.(` + pname + `); ok { x = &v } else { return inspector.ErrUnsupportedType }
+if x == nil { return nil }`
 
 	// Getter methods.
 	c.wl("func (", recv, " ", inst, ") TypeName() string {")
